@@ -180,6 +180,12 @@ static void run_campaigns(Ctx& ctx) {
       b.push_back(0xff); run("NEST", b);
     }
   }
+  // payload is not depth either: a string longer than the whole bounded stack, at the top and a few levels down
+  { size_t big = (256u << 10) + (4u << 10) * L + 8192;
+    for (uint8_t ib : {(uint8_t)0x5a, (uint8_t)0x7a}) for (size_t lv : {(size_t)0, L > 3 ? (size_t)3 : L - 1}) {
+      gen::Bytes b(lv, 0x81); b.push_back(ib); for (int i = 3; i >= 0; i--) b.push_back((uint8_t)(big >> (8 * i)));
+      b.resize(b.size() + big, 0x61); run("PAYLOAD", b);
+    } }
   // enumerated small encodings exercise small limits from every opener / slot combination
   if (L <= 8) {
     gen::E2 e(gen::leaves_full(), [&](const gen::Bytes& b, int) { run("ENUM", b); });
@@ -187,7 +193,8 @@ static void run_campaigns(Ctx& ctx) {
     gen::pairwise([&](const gen::Bytes& b) { run("ENUM", b); });
   }
   ctx.distinct_by_construction = false;
-  ctx.campaign_exhaustive["NEST"] = true;
+  ctx.campaign_exhaustive["NEST"] = true; ctx.campaign_exhaustive["PAYLOAD"] = true;
+  ctx.notes["PAYLOAD"] = "a definite byte string and a definite text string longer than the bounded stack itself (256 KiB + 4 KiB x L + 8 KiB), at the top level and three levels down, through load / describe / serialize / copy / release";
   ctx.notes["NEST"] = "L=" + std::to_string(L) + ": nests from each of 10 opener kinds (tags, definite/indefinite arrays, maps in key and value position, wide heads, second slot) homogeneous and seeded mixes, at depths L-1, L, L+1, L+2, 4L (and 1, L/2), with an integer, a chunked byte/text string, an empty array or an empty indefinite map innermost; truncations; sibling-heavy inputs whose nesting stays within the limit" +
                       std::string(L <= 8 ? "; ENUM: every E2 / E2p encoding against the reference with this limit" : "");
 }
